@@ -99,7 +99,9 @@ REPLAY_PLANS = {
                   "thorough": [sim("U1", 800, 12, "Fam_C17", "NextSim_Invalid"), sim("U2", 400, 12, "Fam_C17", "NextSim_Invalid"),
                                sim("U3", 200, 12, "Fam_C17", "NextSim_Invalid")]}),
     "C18": dict(
-        cover=covers("F_Measure"),
+        cover={"quick": [cov("U2", "U2_ScriptsQ", "F_Measure", 220, init="U2_Same"), cov("U2", "U2_ScriptsReg", "F_Reg", 180, init="U2_Same")],
+               "thorough": [cov("U2", "U2_Scripts", "F_Measure", 2500, init="U2_Same"), cov("U2", "U2_ScriptsReg", "F_Reg", 2000, init="U2_Same"),
+                            cov("U3", "U3_Scripts", "F_Measure", 1500, init="U3_Same")]},
         actions={"measure", "cecombine", "cereorder", "traceout", "opn", "povm"},
         exhaustive={"quick": [("U4", 3, "Fam_C18")], "thorough": [("U4", 4, "Fam_C18")]},
         ex_init={"U4": "U4_ExInit"},
@@ -130,7 +132,7 @@ TRACE_PLANS = {
     "C13": dict(
         layout={"quick": (2, 1, 2, 3), "thorough": (2, 1, 3, 4)},
         layout_faults={"quick": ["no_refresh_on_merge"], "thorough": ["no_refresh_on_merge", "dup_on_merge", "refresh_before_remove"]},
-        cover={"quick": [cov("U2", "U2_ScriptsReg", "F_Reg", 300)], "thorough": [cov("U2", "U2_ScriptsReg", "F_Reg", 3000, depth=2)]},
+        cover={"quick": [cov("U2", "U2_ScriptsReg", "F_Reg", 700)], "thorough": [cov("U2", "U2_ScriptsReg", "F_Reg", 3000, depth=2)]},
         exhaustive={"quick": [("U4", 3, "Fam_All")], "thorough": [("U4", 4, "Fam_All")]},
         simulate={"quick": [sim("U2", 48, 11, "Fam_All", "NextSim_Struct"), sim("U3", 48, 11, "Fam_All", "NextSim_Struct")],
                   "thorough": [sim("U2", 400, 13, "Fam_All", "NextSim_Struct"), sim("U3", 400, 13, "Fam_All", "NextSim_Struct"),
@@ -139,7 +141,7 @@ TRACE_PLANS = {
     "C20": dict(
         layout={"quick": (2, 1, 2, 3), "thorough": (2, 1, 3, 4)},
         layout_faults={"quick": ["no_refresh_on_merge"], "thorough": ["no_refresh_on_merge", "dup_on_merge", "refresh_before_remove"]},
-        cover={"quick": [cov("U2", "U2_ScriptsReg", "F_Reg", 300)], "thorough": [cov("U2", "U2_ScriptsReg", "F_Reg", 3000, depth=2)]},
+        cover={"quick": [cov("U2", "U2_ScriptsReg", "F_Reg", 700)], "thorough": [cov("U2", "U2_ScriptsReg", "F_Reg", 3000, depth=2)]},
         exhaustive={"quick": [("U4", 3, "Fam_All")], "thorough": [("U4", 4, "Fam_All")]},
         simulate={"quick": [sim("U2", 48, 11, "Fam_All", "NextSim_Comp"), sim("U3", 48, 11, "Fam_All", "NextSim_Comp")],
                   "thorough": [sim("U2", 400, 13, "Fam_All", "NextSim_Comp"), sim("U3", 400, 13, "Fam_All", "NextSim_Comp"),
